@@ -543,7 +543,7 @@ func c11GenItems(r *Rand) []c11Item {
 func c11GenBase(r *Rand) map[string]interface{} {
 	a := map[string]interface{}{}
 	if r.Chance(0.5) {
-		a["filterText"] = []string{"an", "CAN", "x", "zzz", "  ", "ban z", "a"}[r.Intn(7)]
+		a["filterText"] = []string{"an", "CAN", "x", "zzz", "  ", "ban z", "a", "averyveryverylongwordthatmatchesnothing an", "zzzzzzzzzzzzzzzzzzzzzzzz  A x", "an averyveryverylongwordthatmatchesnothing"}[r.Intn(10)]
 		if r.Chance(0.5) {
 			var fs []string
 			for _, n := range c11FilterNames {
